@@ -2,25 +2,28 @@ package main
 
 func init() {
 	reg(&Spec{
-		ID: "C29", Pkgs: []string{"util", "transactions"},
+		ID: "C29", Pkgs: []string{"util", "transactions"}, EngineOnly: []string{"VH_C29_concurrent_next", "VH_C29_concurrent_store"},
 		Quick: func() []Inst {
 			return []Inst{inst("util", "VH_C29_next"), inst("util", "VH_C29_new"), inst("util", "VH_C29_state"),
-				inst("transactions", "VH_C29_store", 3), inst("transactions", "VH_C29_store", 4)}
+				inst("transactions", "VH_C29_store", 3), inst("transactions", "VH_C29_store", 4),
+				inst("util", "VH_C29_concurrent_next", 2), inst("transactions", "VH_C29_concurrent_store", 2)}
 		},
 		Thor: func() []Inst {
 			return []Inst{inst("util", "VH_C29_next"), inst("util", "VH_C29_new"), inst("util", "VH_C29_state"),
-				inst("transactions", "VH_C29_store", 4), inst("transactions", "VH_C29_store", 5)}
+				inst("transactions", "VH_C29_store", 4), inst("transactions", "VH_C29_store", 5),
+				Inst{Pkg: "util", Fn: "VH_C29_concurrent_next", Args: []int64{3}, MaxPaths: 100000}, Inst{Pkg: "transactions", Fn: "VH_C29_concurrent_store", Args: []int64{3}, MaxPaths: 100000}}
 		},
 		Asserts: []string{"C29.next_returns_state", "C29.next_wraps", "C29.next_increments", "C29.next_stays_in_range", "C29.overflow_exactly_after_wrap",
 			"C29.consecutive_distinct", "C29.new_starts_at_min", "C29.first_is_min", "C29.state_swap", "C29.store_get_found", "C29.store_get_value",
-			"C29.store_getbytype_found", "C29.store_getbytype_value"},
-		Reach: []string{"C29.wrap", "C29.step"},
+			"C29.store_getbytype_found", "C29.store_getbytype_value",
+			"C29.concurrent_ids_consecutive", "C29.concurrent_ids_distinct", "C29.concurrent_ids_ordered_per_goroutine", "C29.concurrent_race_free", "C29.concurrent_own_key_visible", "C29.concurrent_final_content"},
+		Reach: []string{"C29.wrap", "C29.step", "C29.concurrent_done", "C29.concurrent_store_done"},
 		Bounds: map[string]string{
 			"ID sequence": "one Next() (and a second, chained) from an arbitrary state: min <= next <= max and the overflow flag all symbolic over the full 16-bit range (induction: covers every range and every number of calls)",
 			"store":       "sequences of 3..4 (thorough 4..5) operations Store/Delete/Get/StoreByType/DeleteByType/GetByType with symbolic kinds and symbolic keys against a reference association list",
-			"atomicity":   "interleavings of concurrent callers are covered by the L3 harness when enabled; this tier decides the sequential semantics the serialisation argument refers to",
+			"atomicity":   "pre-emptive interleavings (a context switch offered before every shared access and lock operation; context bound 2, thorough 3): two goroutines taking two IDs each get the four consecutive IDs, each once, in order per goroutine; two goroutines storing / deleting / reading distinct symbolic keys leave exactly the sequential result; no lock-free conflicting accesses",
 		},
-		Outside: []string{"store histories longer than 5 operations", "weak-memory behaviours"},
+		Outside: []string{"store histories longer than 5 operations", "more than two goroutines, more than 3 pre-emptions", "weak-memory behaviours", "schedule-dependent counterexamples are confirmed by concrete re-execution of the recorded schedule in the engine, not natively"},
 	})
 }
 
@@ -55,7 +58,7 @@ func init() {
 
 func init() {
 	reg(&Spec{
-		ID: "C18", Pkgs: []string{"transactions"}, TimedNative: true, LoopBound: 400, ValidateN: 8, EngineOnly: []string{"VH_C18_race", "VH_C18_timed_race"},
+		ID: "C18", Pkgs: []string{"transactions", "client"}, TimedNative: true, LoopBound: 400, ValidateN: 8, EngineOnly: []string{"VH_C18_race", "VH_C18_timed_race", "VH_C18_sleep_race"},
 		Quick: func() []Inst {
 			var out []Inst
 			for _, fa := range []int64{0, 1, 2} {
@@ -63,6 +66,7 @@ func init() {
 			}
 			out = append(out, inst("transactions", "VH_C18_timed", 3))
 			out = append(out, inst("transactions", "VH_C18_race", 2), inst("transactions", "VH_C18_timed_race", 2, 0), inst("transactions", "VH_C18_timed_race", 2, 1))
+			out = append(out, Inst{Pkg: "client", Fn: "VH_C18_sleep_race", Args: []int64{1}, LoopBound: 2000})
 			return out
 		},
 		Thor: func() []Inst {
@@ -72,16 +76,17 @@ func init() {
 			}
 			out = append(out, inst("transactions", "VH_C18_timed", 4), inst("transactions", "VH_C18_timed", 5))
 			out = append(out, inst("transactions", "VH_C18_race", 3), inst("transactions", "VH_C18_timed_race", 3, 0), inst("transactions", "VH_C18_timed_race", 3, 1))
+			out = append(out, Inst{Pkg: "client", Fn: "VH_C18_sleep_race", Args: []int64{2}, LoopBound: 2000, MaxPaths: 60000})
 			return out
 		},
 		Asserts: []string{"C18.finally_ran_once_at_done", "C18.done_stays_closed", "C18.err_stable_after_done", "C18.finally_exactly_once", "C18.no_retry_callback_after_done", "C18.no_panic",
-			"C18.race_finally_exactly_once", "C18.race_no_retry_callback_after_done", "C18.race_err_is_the_first_result", "C18.race_free", "C18.race_finally_ran_when_done_observed", "C18.race_no_panic"},
-		Reach:   []string{"C18.finished", "C18.event_after_done", "C18.retry_history_done", "C18.timed_history_done", "C18.race_done", "C18.timed_race_done"},
+			"C18.race_finally_exactly_once", "C18.race_no_retry_callback_after_done", "C18.race_err_is_the_first_result", "C18.race_free", "C18.race_finally_ran_when_done_observed", "C18.race_no_panic", "C18.sleep_race_no_resend_after_reply", "C18.sleep_race_sleep_succeeds", "C18.sleep_race_no_panic"},
+		Reach:   []string{"C18.finished", "C18.event_after_done", "C18.retry_history_done", "C18.timed_history_done", "C18.race_done", "C18.timed_race_done", "C18.sleep_race_done"},
 		Bounds: map[string]string{
 			"events":   "every sequence of n events (quick 2..3, thorough 4..5) over {Success, Fail, Proceed, next timer expiry, context cancellation} on a RetryTransaction (retryCount 0..2, symbolic retryDelay, retry callback failing on its k-th call, k = 0..3) / {Success, Fail, timer expiry, cancellation} on a TimedTransaction (symbolic timeout, 0 included), then all remaining timers fire",
 			"schedule": "event sequences: cooperative tasks (an event runs to completion before the next one; timer callbacks run at their virtual instants)",
-			"races":    "pre-emptive interleavings (a context switch is offered before every access to shared memory and every lock operation; context bound 2, thorough 3) of Success() with the retry timer's callback on a RetryTransaction while a third goroutine waits on Done; of Success() with the timeout callback on a TimedTransaction; and of NewTimedTransaction with a zero timeout, whose timer goroutine is runnable before the constructor has stored the timer",
+			"races":    "pre-emptive interleavings (a context switch is offered before every access to shared memory and every lock operation; context bound 2, thorough 3) of Success() with the retry timer's callback on a RetryTransaction while a third goroutine waits on Done; of Success() with the timeout callback on a TimedTransaction; and of NewTimedTransaction with a zero timeout, whose timer goroutine is runnable before the constructor has stored the timer; and of the client's Sleep() call (client/sleep_transaction.go) with the receive loop handling the gateway's immediate DISCONNECT reply (context bound 1, thorough 2): no goroutine crashes, no DISCONNECT is resent after the reply, Sleep returns nil after the wake-up PINGRESP",
 		},
-		Outside: []string{"more than 3 pre-emptions; Proceed / Fail / cancellation racing with the timer (only Success vs. timer is interleaved pre-emptively)", "data races are reported only when both conflicting accesses are lock-free (adjacency criterion); weak-memory effects", "client/sleep_transaction.go timers (exercised through C28/C33/C26 only)", "schedule-dependent counterexamples are confirmed by concrete re-execution of the recorded schedule in the engine, not natively"},
+		Outside: []string{"more than 3 pre-emptions; Proceed / Fail / cancellation racing with the timer (only Success vs. timer is interleaved pre-emptively)", "data races are reported only when both conflicting accesses are lock-free (adjacency criterion); weak-memory effects", "the wake-up phase of the sleep transaction is interleaved cooperatively only (C26/C28/C33)", "schedule-dependent counterexamples are confirmed by concrete re-execution of the recorded schedule in the engine, not natively"},
 	})
 }
